@@ -16,7 +16,7 @@ pub const RULE: &str = "case = (scoring matrix with finite non-wildcard entries,
 pub const REQUIRED: &[&str] = &[
     "arm.avx2", "arm.generic", "arm.sse2", "arm.dispatch[generic]", "arm.dispatch[sse2]", "arm.dispatch[avx2]",
     "arm.dispatch[auto]", "arm.score_position", "arm.generic.protein", "class.presaturation_sum>255",
-    "class.wildcard_in_window", "class.finite_wildcard_above_row_min", "class.consensus_planted", "class.flat_matrix",
+    "class.wildcard_in_window", "scanner.own_score_threshold", "class.finite_wildcard_above_row_min", "class.consensus_planted", "class.flat_matrix",
     "dispatch_forced.generic", "dispatch_forced.sse2", "dispatch_forced.avx2",
 ];
 
@@ -230,7 +230,7 @@ fn run_dna(case: u64, rng: &mut Rng, rep: &mut Report) {
         rep.cover(&format!("arm.{}", name));
         if let Err(p) = res {
             // the dev-profile build turns the wrapping add of the generic kernel into a panic
-            let kind = if *generic_family && any_sat && p.contains("attempt to add with overflow") {
+            let kind = if *generic_family && p.contains("attempt to add with overflow") && panic_site(&p).ends_with("src/pli/mod.rs") {
                 "c08.generic_u8_wraps".to_string()
             } else {
                 format!("c08.panic:{}", panic_site(&p))
@@ -248,6 +248,54 @@ fn run_dna(case: u64, rng: &mut Rng, rep: &mut Report) {
             if i % 7 == 0 && real[i].is_finite() {
                 let t = real[i] - rng.f32_in(0.0, 2.0);
                 verdict(case, rep, name, *generic_family, &dm_rows, &seq, i, got, dm.scale(t), &format!("scale(threshold {} <= real score {})", t, real[i]), &wit);
+            }
+        }
+    }
+    // consequence clause: the 8-bit pre-filter may add candidates but never loses a hit. On the arms
+    // with the saturating kernel, a scanner whose threshold is a position's own real score (the value
+    // the scanner itself recomputes) or max_score() must yield that position.
+    if nvalid > 0 {
+        let best_i = (0..nvalid).max_by(|&a, &b| real[a].partial_cmp(&real[b]).unwrap_or(std::cmp::Ordering::Equal)).unwrap();
+        let mut targets = vec![best_i, rng.below(nvalid), rng.below(nvalid)];
+        targets.dedup();
+        for &ti in targets.iter() {
+            if !real[ti].is_finite() {
+                continue;
+            }
+            for &arm in [Arm::DispAvx2, Arm::DispAuto].iter() {
+                let b = *rng.pick(&[1usize, 7, 256]);
+                let t = real[ti];
+                let res = guard(|| {
+                    force(arm);
+                    let mut sc = lightmotif::scan::Scanner::new(&pssm, &striped);
+                    unforce();
+                    sc.threshold(t);
+                    sc.block_size(b);
+                    let mut found = false;
+                    let mut n = 0usize;
+                    while let Some(h) = sc.next() {
+                        if h.position() == ti {
+                            found = true;
+                        }
+                        n += 1;
+                        if n > l + 2 {
+                            break;
+                        }
+                    }
+                    found
+                });
+                unforce();
+                rep.cover("scanner.own_score_threshold");
+                match res {
+                    Err(p) => rep.violate(&format!("c08.panic:{}", panic_site(&p)), case, format!("panic while scanning: {}", p), wit()),
+                    Ok(false) => rep.violate(
+                        "c08.prefilter_lost_hit",
+                        case,
+                        format!("{}: scanner with threshold {} (the real score of position {}) and block size {} does not yield that position", arm.name(), t, ti, b),
+                        wit().set("position", J::u(ti)).set("block_size", J::u(b)),
+                    ),
+                    Ok(true) => {}
+                }
             }
         }
     }
@@ -294,7 +342,7 @@ fn run_protein(case: u64, rng: &mut Rng, rep: &mut Report) {
     let res = guard(|| Pipeline::<Protein, _>::generic().score_into(&dm, &striped, &mut out));
     let any_sat = (0..nvalid).any(|i| (0..m).map(|j| dm_rows[j][seq[i + j] as usize] as u32).sum::<u32>() > 255);
     if let Err(p) = res {
-        let kind = if any_sat && p.contains("attempt to add with overflow") { "c08.generic_u8_wraps".to_string() } else { format!("c08.panic:{}", panic_site(&p)) };
+        let kind = if p.contains("attempt to add with overflow") && panic_site(&p).ends_with("src/pli/mod.rs") { "c08.generic_u8_wraps".to_string() } else { format!("c08.panic:{}", panic_site(&p)) };
         rep.violate(&kind, case, format!("generic (protein): panic while scoring in 8 bits: {}", p), wit());
         return;
     }
